@@ -1236,7 +1236,31 @@ fn cli_case(rep: &mut Report, drv: &mut Model, bin: &str, scratch: &std::path::P
         "files": if c.read_ok { json!(files.iter().map(|(k, v)| (k.clone(), abbreviate(v))).collect::<BTreeMap<_, _>>()) } else { json!({}) }});
     let nblocks: usize = c.case.mods.iter().map(|m| m.tests().len()).sum();
     let ran = run_bin(bin, &args, &dir, Duration::from_secs(if nblocks > 4096 { 1500 } else { 120 }));
+    // the same invocation once more, in another process (another hash seed): which blocks run, in
+    // which order, and the exit status may depend on the script only
+    let again = if c.cmd == "test" && (2..=600).contains(&nblocks) && c.read_ok && c.parse_ok && c.type_ok {
+        run_bin(bin, &args, &dir, Duration::from_secs(120)).ok()
+    } else {
+        None
+    };
     let _ = std::fs::remove_dir_all(&dir);
+    fn mark_seq(stdout: &str) -> Vec<u32> {
+        stdout
+            .split("<<T")
+            .skip(1)
+            .filter_map(|rest| rest.split_once(">>").and_then(|(d, _)| d.parse::<u32>().ok()))
+            .collect()
+    }
+    if let (Ok((code1, out1)), Some((code2, out2))) = (&ran, &again) {
+        rep.hist("cli test: invoked twice", "yes");
+        if mark_seq(out1) != mark_seq(out2) || (*code1 == Some(0)) != (*code2 == Some(0)) {
+            rep.violation(
+                "two `roto test` invocations on the same script ran the blocks in different orders (or ended differently)",
+                "cli test: two invocations differ",
+                json!({"case": cj, "first": [format!("{code1:?}"), mark_seq(out1)], "second": [format!("{code2:?}"), mark_seq(out2)]}),
+            );
+        }
+    }
     let (code, stdout) = match ran {
         Ok(x) => x,
         Err(e) => {
